@@ -31,7 +31,7 @@ fn main() {
             let (m, b) = (by_macro(i), by_builder(i));
             // macro == builder twin, observationally: metadata and values at the sampled times, bit for bit
             if !same_meta(&m, &b) { t.miss(json!({"line": i, "class": "twin-meta", "macro": [m.delay(), m.duration(), m.cycle_duration().unwrap()], "builder": [b.delay(), b.duration(), b.cycle_duration().unwrap()], "args": line["args"]})); }
-            for ts in line["ts"].as_array().unwrap() {
+            for ts in line["tw"].as_array().unwrap().iter().chain(line["ts"].as_array().unwrap().iter()) {
                 let time = secs(ts.as_i64().unwrap());
                 let (mut x, mut y) = (SENT.clone(), SENT.clone());
                 m.update(&mut x, time); b.update(&mut y, time);
@@ -49,7 +49,7 @@ fn main() {
         tally.tag("merged_lists");
         if !same_meta(&m, &b) { tally.miss(json!({"merged": j, "class": "twin-meta", "members": merged_members(j)})); }
         let mut times: Vec<i64> = vec![];
-        for k in merged_members(j) { for t in lines[k]["ts"].as_array().unwrap() { times.push(t.as_i64().unwrap()); } }
+        for k in merged_members(j) { for t in lines[k]["tw"].as_array().unwrap() { times.push(t.as_i64().unwrap()); } }
         for t in times {
             let (mut x, mut y) = (SENT.clone(), SENT.clone());
             m.update(&mut x, secs(t)); b.update(&mut y, secs(t));
